@@ -154,7 +154,7 @@ def split_merge(ctx: Ctx, rng, m, b, env, actions):
     """op(a+b) on one copy of the state, op(a); op(b) on another: positions must agree within 1e-18"""
     toks = env["tokens"]
     st = A.dump_state(m, b, actions, len(actions))
-    kind = rng.choice(["supply", "withdraw", "borrow", "repay"])
+    kind = rng.choice(["supply", "withdraw", "borrow", "repay", "repay", "repayColl"])
     sup = [k.name for k in m._supplies]
     bor = [k.name for k in m._borrows]
     if kind == "supply":
@@ -185,13 +185,27 @@ def split_merge(ctx: Ctx, rng, m, b, env, actions):
             return
         total = ref * A.dec_digits(rng, 0.05, 0.8, 6)
         mk = lambda x: {"kind": "borrow", "tok": t, "amount": fmt(x)}
+    elif kind == "repayColl":
+        # repay out of a collateral supply (C10_repay_collateral_split); sometimes more than the collateral holds, so that the cap
+        # ("contract will change payback amount") binds in the one-call run and in the second call of the split run
+        colls = [x for x in sup if m._supplies[A.token(x)].collateral]
+        if not bor or not colls:
+            return
+        t, ct = rng.choice(bor), rng.choice(colls)
+        if env["price"][t] == 0 or env["price"][ct] == 0:
+            return
+        debt = m._borrows[A.token(t)].base_amount * env["status"][t]["varIdx"]
+        cval = m._supplies[A.token(ct)].base_amount * env["status"][ct]["liqIdx"] * env["price"][ct] / env["price"][t]
+        total = min(debt, cval * (D("1.3") if rng.random() < 0.3 else 1)) * A.dec_digits(rng, 0.05, 0.95, 6)
+        mk = lambda x: {"kind": "repay", "tok": t, "amount": fmt(x), "withColl": True, "collTok": ct}
     else:
         c = [t for t in bor if A.token(t) in b._assets]
         if not c:
             return
         t = rng.choice(c)
         debt = m._borrows[A.token(t)].base_amount * env["status"][t]["varIdx"]
-        total = min(debt, b._assets[A.token(t)].balance) * A.dec_digits(rng, 0.05, 0.9, 6)
+        # sometimes the whole debt (the entry disappears in both runs), or nearly everything the wallet holds (Asset.sub's dust rule)
+        total = min(debt, b._assets[A.token(t)].balance) * (A.dec_digits(rng, 0.05, 0.9, 6) if rng.random() < 0.8 else D(rng.choice(["1", "0.999999"])))
         mk = lambda x: {"kind": "repay", "tok": t, "amount": fmt(x), "withColl": False, "collTok": None}
     if total <= 0:
         return
@@ -215,8 +229,17 @@ def split_merge(ctx: Ctx, rng, m, b, env, actions):
         for k in set(d1) | set(d2):
             x, y = d1.get(k, F(0)), d2.get(k, F(0))
             ctx.dev(x, y)
-            if abs(x - y) > TOL * max(1, abs(x) / 10 ** 12):
+            # an entry within rounding distance of the MIN_TOKEN_VALUE clamp may be deleted in one run and kept in the other
+            if abs(x - y) > TOL * max(1, abs(x) / 10 ** 12) + (2 * MIN_TOKEN if min(x, y) == 0 else 0):
                 ctx.violate(f"split:{kind}:{side}", f"{kind} of {total} in one call vs ({a}, {rest}): scaled {side}[{k}] {float(x)!r} vs {float(y)!r}", case)
+    # the wallet moved by the same total (C10_repay_split / C10_repay_collateral_split: equal, or one run snapped to 0 inside Asset.sub's 1e-5 dust)
+    w0 = {k: F(D(v)) for k, v in st["wallet"]}
+    w1 = {k: F(D(v)) for k, v in s1["wallet"]}
+    w2 = {k: F(D(v)) for k, v in s2["wallet"]}
+    for k in set(w1) | set(w2):
+        x, y, z = w1.get(k, F(0)), w2.get(k, F(0)), w0.get(k, F(0))
+        if abs(x - y) > F(1, 10 ** 30) * max(1, abs(z)) and not (min(x, y) == 0 and abs(x - y) < F(1, 10 ** 5) * abs(z) * (1 + F(1, 10 ** 9))):
+            ctx.violate(f"split:{kind}:wallet", f"{kind} of {total} in one call vs ({a}, {rest}): wallet[{k}] {float(x)!r} vs {float(y)!r} (was {float(z)!r})", case)
 
 
 def run_sequence(ctx: Ctx, rng, nbars, reqs, meta, exact_env):
@@ -362,9 +385,17 @@ def replay(ctx: Ctx, case) -> bool:
             d1 = {k: F(D(v["base"])) for k, v in res[0][side]}
             d2 = {k: F(D(v["base"])) for k, v in res[1][side]}
             for k in set(d1) | set(d2):
-                if abs(d1.get(k, F(0)) - d2.get(k, F(0))) > TOL * max(1, abs(d1.get(k, F(0))) / 10 ** 12):
+                if abs(d1.get(k, F(0)) - d2.get(k, F(0))) > TOL * max(1, abs(d1.get(k, F(0))) / 10 ** 12) + (2 * MIN_TOKEN if min(d1.get(k, F(0)), d2.get(k, F(0))) == 0 else 0):
                     print(f"   {side}[{k}]: {d1.get(k)} vs {d2.get(k)}")
                     ok = False
+        w0 = {k: F(D(v)) for k, v in case["state"]["wallet"]}
+        w1 = {k: F(D(v)) for k, v in res[0]["wallet"]}
+        w2 = {k: F(D(v)) for k, v in res[1]["wallet"]}
+        for k in set(w1) | set(w2):
+            x, y, z = w1.get(k, F(0)), w2.get(k, F(0)), w0.get(k, F(0))
+            if abs(x - y) > F(1, 10 ** 30) * max(1, abs(z)) and not (min(x, y) == 0 and abs(x - y) < F(1, 10 ** 5) * abs(z) * (1 + F(1, 10 ** 9))):
+                print(f"   wallet[{k}]: {x} vs {y}")
+                ok = False
         return ok
     m, b, actions = A.new_market(env)
     A.load_state(m, b, case["state"])
